@@ -96,6 +96,22 @@ def run(ctx):
     ctx.tlc("ChipRegistry", "ChipRegistry.cfg", workers=4)
     ctx.tlc("ChipRegistry", "ChipRegistry_nolock.cfg", workers=4, expect_violation=True)
     ctx.absorb(ctx.run_driver("c06", {"part": "registry", "shard": 77}, tag="registry"), "c06")
+    # beyond the listed property: RangeChip!LateRequest - a check requested from a deferred callback that runs after the chip's flush.
+    # TLC exhibits the silent drop in the model; the real chip is driven into the same behaviour and its hook trace must be a
+    # behaviour of the specification exactly when AllowLateRequest is on (and must violate NoSilentDrop there).
+    ctx.tlc("RangeChip", "RangeChip_late.cfg", expect_violation=True)
+    lt = os.path.join(ctx.scratch("late"), "late.ndjson")
+    lr = ctx.run_driver("c06", {"part": "late", "trace_file": lt, "shard": 78}, tag="late")
+    a = ctx.tlc("RangeChipTrace", "RangeChipTrace_late.cfg", workers=1, extra_files={lt: "rangechip_trace.ndjson"}, name="late-accept")
+    b = ctx.tlc("RangeChipTrace", "RangeChipTrace.cfg", workers=1, extra_files={lt: "rangechip_trace.ndjson"}, name="late-reject")
+    c = ctx.tlc("RangeChipTrace", "RangeChipTrace_late_nsd.cfg", workers=1, extra_files={lt: "rangechip_trace.ndjson"}, name="late-nsd")
+    ctx.notes.append("beyond the listed property - RangeChip!LateRequest on the real chip: a value 2^40 requested for 32 bits from a later deferred callback gives "
+                     "outcome=%s; its trace is %s with AllowLateRequest, %s without, NoSilentDrop %s on it"
+                     % (lr["info"].get("late_outcome"), "accepted" if a["ok"] else "REJECTED", "rejected" if not b["ok"] else "ACCEPTED",
+                        "violated" if c["violated"] else "holds"))
+    if not a["ok"] or b["ok"]:
+        ctx.leads.append("BEYOND module=RangeChip LateRequest: the recorded late-request trace is %s with AllowLateRequest and %s without - the model of the "
+                         "deferred phase no longer matches the code" % ("accepted" if a["ok"] else "rejected", "accepted" if b["ok"] else "rejected"))
     for init, inv, want in (("InitRange", "InvRange", "NoError"), ("InitRangeNoRule", "InvRange", "Error"),
                             ("InitComplete", "InvComplete", "NoError"), ("InitBits", "InvBits", "NoError")):
         a = ctx.apalache_check(os.path.join(common.SPEC, "apalache", "LimbRule.tla"), init, inv, name="limb-" + init)
